@@ -28,7 +28,7 @@ func genC03(t *rapid.T) kit.History {
 	cfg := kit.WorldCfg{Stores: []kit.StoreCfg{c03Cfg.Stores[0]}}
 	cfg.BasePath = [][]string{nil, {"root", "a"}, {"root", "a", "b"}, {"root", "a", "b", "c"}}[rapid.IntRange(0, 3).Draw(t, "basePathDepth")]
 	cfg.Stores[0].Keyed = rapid.IntRange(0, 2).Draw(t, "keyed") == 0
-	return kit.GenHistory(t, cfg, 25, 4, false, 60, func(t *rapid.T, l string, m *kit.Model) kit.Op {
+	return kit.GenHistory(t, cfg, 25, 4, true, 60, func(t *rapid.T, l string, m *kit.Model) kit.Op {
 		op := kit.GenEntOpM(t, l, "things", c03Universe, m)
 		// set values whose concatenation is ambiguous: {a,bc} and {ab,c} have the same size and the same joined bytes
 		if op.Spec != nil && rapid.IntRange(0, 5).Draw(t, l+"_regroup") == 0 {
